@@ -45,7 +45,7 @@ ASSUMPTIONS = [
 TECHNIQUE = "Hypothesis-generated typed operation pipelines plus exhaustive chunkings of small shapes; metamorphic check of per-block results against declared chunks and the full result"
 
 UNKNOWN_OPS = {"mask", "unique"}
-STRUCTURAL = {"getitem", "reshape", "concat", "stack", "reduce", "rechunk", "binop", "repeat", "pad", "take", "diff", "coarsen", "mask", "roll", "broadcast", "expand", "squeeze", "map_overlap", "unique", "cum"}
+STRUCTURAL = {"ew_out", "getitem", "reshape", "concat", "stack", "reduce", "rechunk", "binop", "repeat", "pad", "take", "diff", "coarsen", "mask", "roll", "broadcast", "expand", "squeeze", "map_overlap", "unique", "cum"}
 
 
 # --------------------------------------------------------------------------
@@ -130,6 +130,13 @@ def step(lib, x, s, inputs, is_da):
         return lib.stack([x, y], axis=s["axis"])
     if op == "rechunk":
         return x.rechunk(C.tt(s["chunks"])) if is_da else x
+    if op == "ew_out":
+        # ufunc writing into out=: a pre-existing dask array with its own chunking becomes the result
+        if not is_da:
+            return np.add(x, x)
+        z = lib.zeros(x.shape, dtype=x.dtype, chunks=C.tt(s["chunks"]))
+        r = lib.add(x, x, out=z)
+        return z if r is None else r
     if op == "mask":
         return x[x > s["k"]]
     if op == "unique":
@@ -330,7 +337,7 @@ def draw_step(draw, x, inputs, unknown, zc=False):
         return {"op": "reduce", "f": draw(st.sampled_from(["sum", "max"] if x.size else ["sum"])), "axis": None, "keepdims": False}
     if zc or x.size == 0:
         return draw(draw_plain_step(x, inputs, zc))
-    menu = ["ew", "ew", "binop", "getitem", "getitem", "reduce", "reduce", "rechunk", "transpose", "concat", "stack", "map_blocks", "flip", "expand", "broadcast"]
+    menu = ["ew", "ew", "ew_out", "binop", "getitem", "getitem", "reduce", "reduce", "rechunk", "transpose", "concat", "stack", "map_blocks", "flip", "expand", "broadcast"]
     if nd >= 1:
         menu += ["reshape", "reshape", "take", "roll", "repeat", "pad", "cum", "coarsen"]
     if numeric and nd >= 1 and x.size:
@@ -434,6 +441,8 @@ def draw_step(draw, x, inputs, unknown, zc=False):
         return s
     if op == "rechunk":
         return {"op": "rechunk", "chunks": draw(C.shape_chunks(list(x.shape), zero_p=0.0))}
+    if op == "ew_out":
+        return {"op": "ew_out", "chunks": draw(C.shape_chunks(list(x.shape), zero_p=0.0))}
     if op == "mask":
         return {"op": "mask", "k": draw(st.integers(-3, 3))}
     if op == "unique":
